@@ -208,7 +208,13 @@ def main():
                     pio = PyramidIO(base, default_format="npy")
                     with warnings.catch_warnings():
                         warnings.simplefilter("ignore")
-                        toast.sample_layer(pio, (lambda lon, lat, which=which: np.array(lon if which == "lon" else lat, dtype=np.float64)), depth, coordsys=cs, parallel=1)
+                        probe = (lambda lon, lat, which=which: np.array(lon if which == "lon" else lat, dtype=np.float64))
+                        if depth == 1:
+                            # through the Builder entry point, with a filter that accepts everything (the filtered code path)
+                            from toasty.builder import Builder
+                            Builder(pio).toast_base(probe, depth, is_planet=(cs == toast.ToastCoordinateSystem.PLANETARY), tile_filter=(lambda t: True), parallel=1)
+                        else:
+                            toast.sample_layer(pio, probe, depth, coordsys=cs, parallel=1)
                     for x in range(2 ** depth):
                         for y in range(2 ** depth):
                             pth = pio.tile_path(Pos(depth, x, y), makedirs=False)
@@ -230,7 +236,7 @@ def main():
                 h.case(("sampler-grid", nm, depth))
                 h.count("sampler-grid", f"{nm}{depth}")
                 if bad:
-                    h.violation("sampler-grid", f"{nm} system, sample_layer at depth {depth} (after {[o[0] for o in order]} in this order, depths 1 then 0): {bad}",
+                    h.violation("sampler-grid", f"{nm} system, {'Builder.toast_base(tile_filter=accept-all)' if depth == 1 else 'sample_layer'} at depth {depth} (after {[o[0] for o in order]} in this order, depths 1 then 0): {bad}",
                                 input={"system": nm, "depth": depth, "order": [o[0] for o in order]}, observed=bad)
     except Exception as e:
         import traceback
